@@ -213,17 +213,8 @@ def showLossyRel (r : Except String Lossy.Relation) : String :=
   | .ok r => "ok " ++ encLossyRel r
   | .error _ => "err"
 
-/-- `PANIC` or the tree (text and dump) -/
-def showHandle (o : Outcome Build.Handle) : String :=
-  match o with
-  | .ok h => s!"ok {encStr h.tree.text} {dump h.tree}"
-  | .panic _ => "PANIC"
-
-def c14Triggers (r : Lossy.Relation) : List String :=
-  (if RelSpec.trigNoArchs r then ["F-C14-1"] else []) ++ (if RelSpec.trigManyProfiles r then ["F-C14-2"] else [])
-
-def trigSuffix (ts : List String) : String :=
-  if ts.isEmpty then "" else "\t!" ++ ",".intercalate ts.eraseDups
+/-- a tree: its text and dump -/
+def showTree (t : RNode) : String := s!"ok {encStr t.text} {dump t}"
 
 def handle (op : String) (args : List String) : Option String :=
   match op, args with
@@ -257,56 +248,42 @@ def handle (op : String) (args : List String) : Option String :=
     let r ← decLossyRel h
     let printed := Lossy.showRelation r
     let ll := Build.toLossless r
-    let bk := match ll with
-      | .ok hd => (match Build.toLossy hd.tree with | .ok x => "ok " ++ encLossyRel x | .panic _ => "PANIC")
-      | .panic _ => "-"
-    let valid := RelSpec.validR r
-    pure (s!"P:{encStr printed} RT:{showLossyRel (Lossy.readRelation printed)} LL:{showHandle ll} BK:{bk} LV:{losslessView printed false} valid={encBool valid}"
-      ++ (if valid then trigSuffix (c14Triggers r) else ""))
+    let bk := match Build.toLossy ll with | .ok x => "ok " ++ encLossyRel x | .panic _ => "PANIC"
+    pure s!"P:{encStr printed} RT:{showLossyRel (Lossy.readRelation printed)} LL:{showTree ll} BK:{bk} LV:{losslessView printed false} valid={encBool (RelSpec.validRS r)}"
   | "rel.lrels", [h] => do
     let rs ← decLossyRels h
     let printed := Lossy.showRelations rs
     let ents := rs.map Build.entryFromLossy
-    let en := ";".intercalate (ents.map showHandle)
-    let eb := ";".intercalate (ents.map fun e => match e with
-      | .ok hd => (match Build.entryToLossy hd.tree with
-          | .ok xs => "ok {" ++ "|".intercalate (xs.map encLossyRel) ++ "}"
-          | .panic _ => "PANIC")
-      | .panic _ => "-")
-    let all : Option (List RNode) := ents.mapM fun e => match e with | .ok hd => some hd.tree | .panic _ => none
-    let rsh := match all with
-      | some ts => showHandle (.ok (Build.relationsFromEntries ts))
-      | none => "-"
-    let valid := RelSpec.validRs rs
-    pure (s!"P:{encStr printed} RT:{lossyView printed} LV:{losslessView printed false} EN:{en} EB:{eb} RS:{rsh} valid={encBool valid}"
-      ++ (if valid then trigSuffix (rs.flatten.flatMap c14Triggers) else ""))
+    let en := ";".intercalate (ents.map showTree)
+    let eb := ";".intercalate (ents.map fun e => match Build.entryToLossy e with
+      | .ok xs => "ok {" ++ "|".intercalate (xs.map encLossyRel) ++ "}"
+      | .panic _ => "PANIC")
+    pure s!"P:{encStr printed} RT:{lossyView printed} LV:{losslessView printed false} EN:{en} EB:{eb} RS:{showTree (Build.relationsFromEntries ents)} valid={encBool (RelSpec.validRSs rs)}"
   | "rel.mut", name :: ver :: ops => do
     let nm ← decStr name
     let v ← if ver == "none" then some none else
       match ver.splitOn "." with
       | [op, t] => do pure (some (← decOp op, ← Version.parse (← decStr t)))
       | _ => none
-    let step (st : Outcome Build.Handle) (o : String) : Option (Outcome Build.Handle) :=
-      match st with
-      | .panic s => some (.panic s)
-      | .ok hd =>
-        match o.splitOn "=" with
-        | ["aq", a] => do pure (Build.setArchqual hd (← decStr a))
-        | ["ver", "none"] => some (Build.setVersion hd none)
-        | ["ver", x] =>
-          match x.splitOn "." with
-          | [op, t] => do pure (Build.setVersion hd (some (← decOp op, ← Version.parse (← decStr t))))
-          | _ => none
-        | ["arch", l] => do pure (Build.setArchitectures hd (← decList l))
-        | ["prof", g] => do pure (Build.addProfile hd (← decGroup g))
+    let step (hd : RNode) (o : String) : Option RNode :=
+      match o.splitOn "=" with
+      | ["aq", a] => do pure (Build.setArchqual hd (← decStr a))
+      | ["ver", "none"] => some (Build.setVersion hd none)
+      | ["ver", x] =>
+        match x.splitOn "." with
+        | [op, t] => do pure (Build.setVersion hd (some (← decOp op, ← Version.parse (← decStr t))))
         | _ => none
-    let rec go (st : Outcome Build.Handle) (os : List String) (acc : List String) : Option (List String) :=
+      | ["drop", _] => some (Build.dropConstraint hd).1
+      | ["arch", l] => do pure (Build.setArchitectures hd (← decList l))
+      | ["prof", g] => do pure (Build.addProfile hd (← decGroup g))
+      | _ => none
+    let rec go (st : RNode) (os : List String) (acc : List String) : Option (List String) :=
       match os with
       | [] => some acc.reverse
       | o :: r => do
         let st' ← step st o
-        go st' r (showHandle st' :: acc)
-    let outs ← go (.ok (Build.relationNew nm v)) ops [showHandle (.ok (Build.relationNew nm v))]
+        go st' r (showTree st' :: acc)
+    let outs ← go (Build.relationNew nm v) ops [showTree (Build.relationNew nm v)]
     pure (" ".intercalate outs)
   | "rel.lprint", [t] => do
     let s ← decStr t
